@@ -195,12 +195,20 @@ def build_pool(seed, tier):
             continue
         kind = (i + rot) % 3 + 1
         calls.append({"op": "qualify_raw", "sql": q, "read": d})
+        calls.append({"op": "parse", "sql": q, "read": d, "error_level": None})
         if kind == 1:
             calls.append({"op": "transpile", "sql": q, "read": d, "write": pick_write()})
         elif kind == 2:
             calls.append({"op": "generate", "sql": q, "read": d, "write": pick_write(), "opts": dict(rng.choice(hot_opts))})
         else:
             calls.append({"op": "parse", "sql": q, "read": d, "error_level": None})
+    subclass_groups = []
+    for parent in ("postgres", "duckdb", "mysql", "snowflake", "spark"):
+        members = [{"op": "subclass_dialect", "parent": parent}]
+        for d, q in corpus.stateful_families().get("jsonpath", []) + [x for x in corpus.GENERAL if "JSON_EXTRACT" in x[1]]:
+            members.append({"op": "transpile", "sql": q, "read": d, "write": parent})
+        calls.extend(members)
+        subclass_groups.append(members)
     for q in corpus.SCHEMA_QUERIES:
         for al in re.findall(r" AS ([a-z_][a-z0-9_]*)\b", q)[:2]:
             if " FROM (" not in q and "WITH " not in q:
@@ -253,6 +261,7 @@ def build_pool(seed, tier):
                 members.append({"op": "transpile", "sql": q, "read": rd, "write": w})
         groups.append(members)
         calls.extend(members)
+    groups.extend(subclass_groups)  # "define a dialect deriving from P, then generate for P" as focus groups of their own
     _POOL[key] = calls
     _GROUPS[key] = groups
     return calls
